@@ -199,4 +199,25 @@ theorem ok_posOverflow {t : IntTy} {π : Policy} (w : t.WF π) (dir : Dir) {to0 
       · simp [K4.overflowHolds, V_LT_PLUS_INFINITY, orUnrep, Rel.LT, Rel.GT, Ext.lt, he]
       · simp [V_LT_PLUS_INFINITY, orUnrep]
 
+/-- **The three endings of an exact integer operation** whose mathematical result is `e`:
+stored exactly with `V_EQ`, or `set_neg_overflow_int` because `e` is below the finite range, or
+`set_pos_overflow_int` because it is above. -/
+def Tri (t : IntTy) (π : Policy) (dir : Dir) (to0 : Int) (out : Int × Result) (e : Int) : Prop :=
+  (out = (e, V_EQ) ∧ t.finite π e) ∨ (e < t.emin π ∧ out = setNegOverflow t π to0 dir)
+    ∨ (t.emax π < e ∧ out = setPosOverflow t π to0 dir)
+
+theorem tri_eq {t : IntTy} {π : Policy} {dir : Dir} {to0 v : Int} (h : t.finite π v) :
+    Tri t π dir to0 (v, V_EQ) v := Or.inl ⟨rfl, h⟩
+theorem tri_neg {t : IntTy} {π : Policy} {dir : Dir} {to0 e : Int} (h : e < t.emin π) :
+    Tri t π dir to0 (setNegOverflow t π to0 dir) e := Or.inr (Or.inl ⟨h, rfl⟩)
+theorem tri_pos {t : IntTy} {π : Policy} {dir : Dir} {to0 e : Int} (h : t.emax π < e) :
+    Tri t π dir to0 (setPosOverflow t π to0 dir) e := Or.inr (Or.inr ⟨h, rfl⟩)
+
+theorem tri_ok {t : IntTy} {π : Policy} (w : t.WF π) {dir : Dir} {to0 : Int} (h0 : t.inRange to0)
+    {out : Int × Result} {e : Int} (h : Tri t π dir to0 out e) : OK t π dir out (.fin e) := by
+  rcases h with ⟨rfl, hf⟩ | ⟨he, rfl⟩ | ⟨he, rfl⟩
+  · exact ok_eq w dir hf
+  · exact ok_negOverflow w dir h0 he
+  · exact ok_posOverflow w dir h0 he
+
 end PPLV.Checked
